@@ -786,6 +786,16 @@ def oracle_session(obs, msgs):
         fam = family(msgs[-1] if msgs else b'', exc) if exc is not None else 'no-exception'
         return f'c05:session-wedged-{fam}', \
             'after the hostile bytes the probe request is not answered and the transport is still open'
+    # "no byte sequence from the peer can crash ... message processing; no other exception type
+    # escapes": message processing must not END with an exception because of what the peer sent -
+    # also when the transport notices and drops the connection afterwards (a session that closes
+    # the connection on purpose does so by calling close(); its message task then ends normally)
+    exc = obs.get('task_exc')
+    if exc is not None:
+        fam = family(msgs[-1] if msgs else b'', exc)
+        return f'c05:session-crashed-{fam}', \
+            f'{type(exc).__name__} escaped the session\'s message processing (the task died; ' \
+            f'probe answered: {obs["answered"]}, transport closing: {obs["closing"]})'
     return None
 
 
